@@ -262,6 +262,12 @@ const spinBound = 300 // failing attempts for one height after cancel/stop that 
 // scenarios use a shorter one so that a broken tree does not cost a minute per scenario.
 var notClosedSeen int
 
+// violationsSeen: once the run has a violation (it will exit 1 whatever follows) the remaining
+// scenarios use the short watchdog too, so that a badly broken tree -- where many scenarios get
+// stuck -- does not cost a minute per scenario.  All findings up to the first one are established
+// with the generous watchdog.
+var violationsSeen int
+
 func (s *scenario) subByNS(ns libshare.Namespace) int {
 	for _, sb := range s.subs {
 		if sb.ns.Equals(ns) {
@@ -280,7 +286,10 @@ func (s *scenario) replay() any {
 		"offer": s.sc.Offer, "steps_applied": s.applied, "observed": obs}
 }
 
-func (s *scenario) violate(sig, what string) { s.rep.Violate(sig, what, s.replay()) }
+func (s *scenario) violate(sig, what string) {
+	violationsSeen++
+	s.rep.Violate(sig, what, s.replay())
+}
 
 func (sb *subscription) emit(ev string, kv ...any) {
 	m := map[string]any{"ev": ev}
@@ -292,7 +301,7 @@ func (sb *subscription) emit(ev string, kv ...any) {
 
 func newScenario(fix *fixture, rep *vh.Report, sc script) *scenario {
 	s := &scenario{fix: fix, rep: rep, sc: sc, attCh: make(chan attemptEv, 64), wd: 60 * time.Second}
-	if notClosedSeen > 0 {
+	if notClosedSeen > 0 || violationsSeen > 0 {
 		s.wd = 5 * time.Second
 	}
 	hg := func(_ context.Context, h uint64) (*header.ExtendedHeader, error) {
